@@ -41,6 +41,9 @@ type Params struct {
 	RootDir       string // where the cache files live ("" = a directory that does not exist)
 	GenesisTime   time.Time
 	SignerSeed    string
+	// CustomPayload: the node's manager is built with a non-default ManagerOptions.SignaturePayloadProvider
+	// (CustomPayloadProvider, see custompayload.go); false = block.DefaultManagerOptions().
+	CustomPayload bool
 }
 
 func (p Params) withDefaults() Params {
